@@ -227,7 +227,7 @@ func (e *Engine) findIndicesDFA(haystack []byte) (int, int, bool) { //nolint:cyc
 	// Longest (POSIX) mode: DFA uses leftmost-first (break-at-match), which is
 	// incompatible with leftmost-longest semantics. Fall back to PikeVM.
 	if e.longest {
-		return e.pikevm.Search(haystack)
+		return e.pikevmSearchAt(haystack, 0)
 	}
 
 	// Literal fast path — complete prefilter returns match directly
@@ -241,7 +241,7 @@ func (e *Engine) findIndicesDFA(haystack []byte) (int, int, bool) { //nolint:cyc
 		if literalLen > 0 {
 			return pos, pos + literalLen, true
 		}
-		return e.pikevm.Search(haystack)
+		return e.pikevmSearchAt(haystack, 0)
 	}
 
 	// Prefilter skip-ahead for DFA — safe even with incomplete prefilter.
@@ -255,7 +255,7 @@ func (e *Engine) findIndicesDFA(haystack []byte) (int, int, bool) { //nolint:cyc
 		if e.reverseDFA != nil {
 			return e.findIndicesBidirectionalDFA(haystack, pos)
 		}
-		return e.pikevm.SearchAt(haystack, pos)
+		return e.pikevmSearchAt(haystack, pos)
 	}
 
 	// Prefilter-accelerated search: find candidate, verify with anchored DFA.
@@ -317,7 +317,7 @@ func (e *Engine) findIndicesDFA(haystack []byte) (int, int, bool) { //nolint:cyc
 			return -1, -1, false
 		}
 		atomic.AddUint64(&e.stats.PrefilterHits, 1)
-		return e.pikevm.SearchAt(haystack, pos)
+		return e.pikevmSearchAt(haystack, pos)
 	}
 
 	// No prefilter: bidirectional DFA or DFA + PikeVM fallback.
@@ -332,7 +332,7 @@ func (e *Engine) findIndicesDFA(haystack []byte) (int, int, bool) { //nolint:cyc
 	}
 
 	// DFA confirmed a match exists - use PikeVM for exact bounds
-	return e.pikevm.Search(haystack)
+	return e.pikevmSearchAt(haystack, 0)
 }
 
 // findIndicesDFAAt searches using DFA starting at position - zero alloc.
@@ -341,7 +341,7 @@ func (e *Engine) findIndicesDFAAt(haystack []byte, at int) (int, int, bool) {
 
 	// Longest (POSIX) mode: DFA uses leftmost-first, fall back to PikeVM.
 	if e.longest {
-		return e.pikevm.SearchAt(haystack, at)
+		return e.pikevmSearchAt(haystack, at)
 	}
 
 	// Prefilter skip-ahead — safe for all prefilters, DFA verifies.
@@ -355,7 +355,7 @@ func (e *Engine) findIndicesDFAAt(haystack []byte, at int) (int, int, bool) {
 		if e.reverseDFA != nil {
 			return e.findIndicesBidirectionalDFA(haystack, pos)
 		}
-		return e.pikevm.SearchAt(haystack, pos)
+		return e.pikevmSearchAt(haystack, pos)
 	}
 
 	if e.reverseDFA != nil {
@@ -369,7 +369,7 @@ func (e *Engine) findIndicesDFAAt(haystack []byte, at int) (int, int, bool) {
 	}
 
 	// DFA confirmed a match exists - use PikeVM for exact bounds
-	return e.pikevm.SearchAt(haystack, at)
+	return e.pikevmSearchAt(haystack, at)
 }
 
 // findIndicesDFAAtWithState searches using DFA starting at position, reusing provided state.
@@ -483,7 +483,7 @@ func (e *Engine) findIndicesAdaptive(haystack []byte) (int, int, bool) {
 		}
 
 		// Search from prefilter position - O(m) not O(n)
-		return e.pikevm.SearchAt(haystack, pos)
+		return e.pikevmSearchAt(haystack, pos)
 	}
 
 	// Try DFA without prefilter
@@ -496,7 +496,7 @@ func (e *Engine) findIndicesAdaptive(haystack []byte) (int, int, bool) {
 			// DFA confirmed a match exists - use PikeVM for exact bounds.
 			// The match may start arbitrarily far before endPos, so the
 			// search must begin at the start of the haystack.
-			return e.pikevm.Search(haystack)
+			return e.pikevmSearchAt(haystack, 0)
 		}
 		size, capacity, _, _, _ := e.dfa.CacheStats(state.dfaCache)
 		e.putSearchState(state)
@@ -527,7 +527,7 @@ func (e *Engine) findIndicesAdaptiveAt(haystack []byte, at int) (int, int, bool)
 		}
 
 		// Search from prefilter position - O(m) not O(n)
-		return e.pikevm.SearchAt(haystack, pos)
+		return e.pikevmSearchAt(haystack, pos)
 	}
 
 	// Try DFA without prefilter
@@ -540,7 +540,7 @@ func (e *Engine) findIndicesAdaptiveAt(haystack []byte, at int) (int, int, bool)
 			// DFA confirmed a match exists - use PikeVM for exact bounds.
 			// The match may start arbitrarily far before endPos, so the
 			// search must begin at the original position.
-			return e.pikevm.SearchAt(haystack, at)
+			return e.pikevmSearchAt(haystack, at)
 		}
 		size, capacity, _, _, _ := e.dfa.CacheStats(state.dfaCache)
 		e.putSearchState(state)
@@ -749,7 +749,7 @@ func (e *Engine) findIndicesBoundedBacktracker(haystack []byte) (int, int, bool)
 	// step, not O(states × haystack) like BT visited table.
 	if e.nfa.IsAlwaysAnchored() && !e.boundedBacktracker.CanHandle(len(haystack)) {
 		atomic.AddUint64(&e.stats.NFASearches, 1)
-		return e.pikevm.SearchWithSlotTable(haystack, nfa.SearchModeFind)
+		return e.pikevmSearchWithSlotTableAt(haystack, 0)
 	}
 
 	atomic.AddUint64(&e.stats.NFASearches, 1)
@@ -759,7 +759,7 @@ func (e *Engine) findIndicesBoundedBacktracker(haystack []byte) (int, int, bool)
 		if e.dfa != nil && e.reverseDFA != nil {
 			return e.findIndicesBidirectionalDFALongest(haystack, 0)
 		}
-		return e.pikevm.SearchWithSlotTable(haystack, nfa.SearchModeFind)
+		return e.pikevmSearchWithSlotTableAt(haystack, 0)
 	}
 
 	state := e.getSearchState()
@@ -801,7 +801,7 @@ func (e *Engine) findIndicesBoundedBacktrackerAt(haystack []byte, at int) (int, 
 				if e.dfa != nil && e.reverseDFA != nil {
 					return e.findIndicesBidirectionalDFALongest(haystack, at)
 				}
-				return e.pikevm.SearchWithSlotTableAt(haystack, at, nfa.SearchModeFind)
+				return e.pikevmSearchWithSlotTableAt(haystack, at)
 			}
 			start, end, found := e.asciiBoundedBacktracker.Search(remaining)
 			if found {
